@@ -389,6 +389,7 @@ func (in *Interp) resetForConfig() {
 	in.evalGen = nil
 	in.evalVal = nil
 	in.memo = map[string]*memoEntry{}
+	in.runeBounds = nil
 	in.noMerge = map[*ssa.Function]string{}
 	in.stats = Stats{}
 	in.funcsEntered = map[*ssa.Function]int64{}
